@@ -161,6 +161,12 @@ class Timezone(zoneinfo.ZoneInfo, PendulumTimezone):
 
 class FixedTimezone(_datetime.tzinfo, PendulumTimezone):
     def __init__(self, offset: int, name: str | None = None) -> None:
+        if abs(offset) >= 24 * 60 * 60:
+            # datetime refuses such a tzinfo on every use (utcoffset(), repr() ...)
+            raise ValueError(
+                "A fixed offset must be strictly between -24 and +24 hours"
+            )
+
         sign = "-" if offset < 0 else "+"
 
         minutes = offset / 60
